@@ -231,7 +231,20 @@ def tree():
         with open(p, "wb") as f:
             f.write(SENTINEL + b":" + rel.encode())
     os.makedirs(os.path.join(root, "emptydir"), exist_ok=True)
-    _TREE.update(top=top, base=base, root=root, rel=os.path.relpath(root, os.getcwd()))
+    # a throw-away importable package with a static/ directory and sentinels beside / above it
+    pkgname = f"wzverif_pkg_{os.getpid()}"
+    pkgdir = os.path.join(base, "pkgroot", pkgname)
+    for rel, content in {"__init__.py": b"", "static/x.css": b"inside:index", "static/a/b.txt": b"inside:a/b", "static/\\": b"inside:backslash", "secret.txt": SENTINEL + b":pkg/secret.txt", "static-evil/secret.txt": SENTINEL + b":pkg/static-evil"}.items():
+        p = os.path.join(pkgdir, rel)
+        os.makedirs(os.path.dirname(p), exist_ok=True)
+        with open(p, "wb") as f:
+            f.write(content)
+    with open(os.path.join(base, "pkgroot", "secret.txt"), "wb") as f:
+        f.write(SENTINEL + b":pkgroot/secret.txt")
+    import sys
+
+    sys.path.insert(0, os.path.join(base, "pkgroot"))
+    _TREE.update(top=top, base=base, root=root, rel=os.path.relpath(root, os.getcwd()), pkgname=pkgname, pkgdir=pkgdir)
     atexit.register(shutil.rmtree, top, True)
     return _TREE
 
@@ -244,7 +257,7 @@ def root_of(case):
 ROOT_KINDS = ["abs", "rel", "slash", "dotted"]
 
 # request targets (raw, as sent on the wire, below the mount point /static/)
-RAW_ATOMS = ["..", ".", "", "%2e%2e", "%2E%2E", "%2e", "..%2f", "%2f", "%5c", "\\", "%00", "a", "b.txt", "index.html", "secret.txt", "outside", "root-evil", "root", "rootsecret.txt", "..a", "...", "%c3%a9.txt", "%ff", "a.b", "c..d", "sp%20ace.txt", ".hidden", "~", "C:", "%252e%252e", "emptydir", "%2e%2e%2f%2e%2e", "..;", "a/secret.txt"]
+RAW_ATOMS = ["%252e%252e", "..%252f", "%252f", "%255c", "..%5C", "..%5c..%5c", "x.css", "..", ".", "", "%2e%2e", "%2E%2E", "%2e", "..%2f", "%2f", "%5c", "\\", "%00", "a", "b.txt", "index.html", "secret.txt", "outside", "root-evil", "root", "rootsecret.txt", "..a", "...", "%c3%a9.txt", "%ff", "a.b", "c..d", "sp%20ace.txt", ".hidden", "~", "C:", "%252e%252e", "emptydir", "%2e%2e%2f%2e%2e", "..;", "a/secret.txt"]
 
 
 def rand_raw(rng):
@@ -281,6 +294,20 @@ def hostile_raws():
     return [
         "../outside/secret.txt",
         "%2e%2e/outside/secret.txt",
+        # components that are still percent-encoded when the helper sees them (doubly encoded on the wire)
+        "%252e%252e/outside/secret.txt",
+        "..%252foutside%252fsecret.txt",
+        "a/%252e%252e/%252e%252e/outside/secret.txt",
+        "%252e%252e%252foutside%252fsecret.txt",
+        "%252e%252e/secret.txt",
+        "%252e%252e/root-evil/secret.txt",
+        # backslash remainders (ordinary characters on POSIX; must reach the opener unchanged)
+        "..%5Csecret.txt",
+        "..%5C..%5Csecret.txt",
+        "..%5c..%5c..%5coutside%5csecret.txt",
+        "a%5C..%5C..%5Csecret.txt",
+        "x.css",
+        "a/b.txt",
         "..%2foutside%2fsecret.txt",
         "a/../../outside/secret.txt",
         "a/%2e%2e/%2e%2e/outside/secret.txt",
@@ -350,11 +377,12 @@ class StaticFiles(Stream):
             for kind in ("sfd", "sdm"):
                 for rk in ROOT_KINDS:
                     yield {"kind": kind, "root": rk, "raw": raw}
+            yield {"kind": "sdm-pkg", "root": "abs", "raw": raw}
         n = 0
         limit = 1200 if tier == "quick" else 20000
         while n < limit:
             n += 1
-            yield {"kind": rng.choice(["sfd", "sdm", "sdm-exact"]), "root": rng.choice(ROOT_KINDS), "raw": rand_raw(rng)}
+            yield {"kind": rng.choice(["sfd", "sfd", "sdm", "sdm-exact", "sdm-pkg"]), "root": rng.choice(ROOT_KINDS), "raw": rand_raw(rng)}
 
     @staticmethod
     def decoded(case):
@@ -382,13 +410,24 @@ class StaticFiles(Stream):
             body = resp.get_data()
             resp.close()
             return f"{resp.status_code}|{body.hex() or '-'}"
-        if case["kind"] == "sdm-exact":
+        if case["kind"] == "sdm-pkg":
+            # a package export: served through get_package_loader / reader.open_resource
+            mw = SharedDataMiddleware(fallback_app, {"/static": (tree()["pkgname"], "static")}, cache=False)
+        elif case["kind"] == "sdm-exact":
             # the export key is the whole path (loader(None) branch first)
             mw = SharedDataMiddleware(fallback_app, {path: root})
         else:
             mw = SharedDataMiddleware(fallback_app, {"/static": root}, cache=False)
         status = []
-        it = mw(environ, lambda s, h, exc_info=None: status.append(s))
+        try:
+            it = mw(environ, lambda s, h, exc_info=None: status.append(s))
+        except ValueError:
+            if case["kind"] == "sdm-pkg" and "\x00" in path:
+                # reader.open_resource raises ValueError (embedded null byte), which the package loader
+                # does not catch (it catches OSError only): the request fails with an unhandled exception
+                # instead of a 404. Nothing is served, so this is a refusal for C14 (reported separately).
+                return "404|-"
+            raise
         try:
             body = b"".join(it)
         finally:
@@ -415,6 +454,8 @@ class StaticFiles(Stream):
         files = [hs(f) for f in self.existing_files()]
         if case["kind"] == "sfd":
             return line("sfd", hs(os.getcwd()), hs(root), hs(path[len("/static/") :]), *files)
+        if case["kind"] == "sdm-pkg":
+            return line("sdmpkg", hs(tree()["pkgdir"]), hs(path), hs("/static"), hs("static"), *files)
         search = path if case["kind"] == "sdm-exact" else "/static"
         return line("sdm", hs(os.getcwd()), hs(path), hs(search), hs(root), *files)
 
@@ -425,6 +466,8 @@ class StaticFiles(Stream):
         if out.startswith("EXC") or out.startswith("BAD") or out.startswith("UNKNOWN"):
             return out
         p = unhs(out)
+        if case["kind"] == "sdm-pkg":
+            p = os.path.join(tree()["pkgdir"], p)
         with open(p, "rb") as f:
             return "200|" + f.read().hex()
 
@@ -542,7 +585,7 @@ class SecureFilename(Stream):
 
 CHECK = Check(
     prop="C14",
-    gen=["Paths", "PyFns_Paths"],
+    gen=["Paths", "PyFns_Paths", "StaticGlue"],
     modules=["WzVerif.Props.C14", "WzVerif.Props.C14T"],
     streams=[NormpathKernel(), SafeJoin(), StaticFiles(), SecureFilename(), PreludeKernels()],
     assumptions=[
@@ -550,6 +593,7 @@ CHECK = Check(
         "posixpath.normpath / join are hand-modelled from CPython 3.12 and validated by stream normpath-kernel, not verified",
         "unicodedata.normalize('NFKD', .) is an opaque parameter of the secure_filename model; the only law used (idempotence theorem) is that it is the identity on ASCII text; the harness computes the fold with unicodedata exactly as the code does",
         "the file system is outside the model: os.path.isfile enters Model/StaticFiles.lean as an arbitrary predicate (theorem served_path_inside_root holds for every such predicate); stream static-files passes the list of existing regular files; symbolic links inside the root are out of scope (safe_join is purely lexical)",
+        "a NUL in the remainder of a package export makes reader.open_resource raise ValueError, which SharedDataMiddleware's package loader does not catch (OSError only): the request ends in an unhandled exception rather than a 404; nothing is served, the harness counts it as a refusal",
         "containment is lexical: 'inside' means the segments of normpath(result) extend the segments of normpath(base) without '..' and with the same root ('', '/', '//')",
         "safe_join and secure_filename (whole function; NFKD opaque, the Windows branch decided at generation time) are regenerated from the source by tools/py2lean.py (Gen/PyFns_Paths.lean) on every run and proved equal to the hand models safeJoinWith / secureFilename for all inputs (Props/C14T, containment and charset restated on the translated definitions); posixpath.normpath/join/isabs stay the hand models, the other CPython primitives the translated code calls are modelled in Util/PyPrelude.lean and validated by stream prelude-kernels",
     ],
